@@ -336,6 +336,12 @@ func RunFaultDoc(r *Run) {
 	debug.SetPanicOnFault(true)
 	cfg := drawCfg(c, true)
 	d, desc := genFaultBase(r)
+	if cfg.ND && c.Intn("newlineruns", 8) == 0 {
+		// NDJSON: documents separated by runs of line feeds (each a structural of its own in that mode)
+		var nb []byte
+		nb, desc = genNewlineRuns(c)
+		d = Doc{B: nb}
+	}
 	base := d.B
 	if cfg.ND && !bytes.Contains(base, []byte{'\n'}) && c.Intn("ndjoin", 2) == 0 {
 		d2 := GenDoc(c, DocSpec{Family: FamMixed, Target: 30, OneLine: true})
